@@ -78,7 +78,7 @@ def run(ctx):
     ctx.assumptions += [
         "only fields the opcode's layout carries are compared; enumeration-typed fields take defined members; GPS coordinates are drawn from the decoder's grid (raw two's complement value x step) where equality is asked; in-range coordinates between two grid points must serialise and come back as a neighbouring grid point",
         "for arbitrary bits the obligation is a documented 'undefined / not implemented' error (ValueError, KeyError, NotImplementedError) or a fixed point of decode-then-encode",
-        "an undefined element value may raise or map to a member, never to nothing; where the standard assigns undefined values to reserved / manufacturer-specific ranges (spec/Elements.tla, ten elements) the member must be the one of that range; the feature set id is exempt (unlisted manufacturer ids are folded onto the first listed manufacturer, asserted by the repository's tests)",
+        "an undefined element value may raise or map to a member, never to nothing; where the standard assigns undefined values to reserved / manufacturer-specific ranges (spec/Elements.tla, eleven elements) the member must be the one of that range; an unlisted manufacturer feature set id (0x04..0x7F) has no reserved member, so only an error satisfies the rule there",
         "absolute bit offsets against the spec layouts are reported as model drift, the statement promises a round trip",
     ]
     core.setup_repo_path()
@@ -133,11 +133,19 @@ def run(ctx):
         name, vals = c["name"], c["vals"]
         rec = {"name": name, "vals": vals, "err": "", "n": 0, "bits": [0], "dec": {k: -1 for k in vals}, "bits2": [0]}
         try:
-            o = ad.build(name, vals, plain=len(cases) % 3 == 2)      # one case in three gives enumerations as plain integers
+            # one case in seven leaves out some of the arguments the constructor declares optional: whatever the defaults mean,
+            # the PDU has its fixed length and survives (the omitted fields are judged on that, not on a value)
+            omit = ()
+            if len(cases) % 7 == 6:
+                opt = ad.optional_fields(name, vals)
+                omit = tuple(f for f in opt if rng.random() < 0.5) or tuple(opt[:1])
+            o = ad.build(name, vals, plain=len(cases) % 3 == 2, omit=omit)      # one case in three gives enumerations as plain integers
             b = o.as_bits()
             rec["n"], rec["bits"] = len(b), pack(b)
             p = ad.parse(name, b.copy())
             rec["dec"] = ad.extract(name, p, list(vals))
+            if omit and len(b) == sum(d["w"] for d in layouts[name]):
+                rec["vals"] = dict(vals, **{f: rec["dec"][f] for f in omit})
             rec["bits2"] = pack(p.as_bits())
             if len(cases) % 2:
                 # every other case is handled by a caller that edits what it built and what it got back afterwards
@@ -235,6 +243,9 @@ def run(ctx):
         else:
             key = f"element/{elems[i]['enum']}/{why}"
             item = elems[i]
+            if why == "UndefinedValueMapsToStandardsReservedMember":
+                # which member the value went to is part of the identification: another wrong member is another violation
+                key += f"/{item['rname']}"
         groups.setdefault(key, []).append(item)
     for key, items in sorted(groups.items()):
         ctx.violation(key, f"{key}: {len(items)} cases, first {json.dumps(items[0])[:350]}", {"count": len(items), "first": items[:2]})
